@@ -36,6 +36,10 @@ theorem send_if_iff (n : Nat) : send_if n = true ↔ n ≠ 0 := by simp [send_if
 theorem skip_known_iff (skip : Bool) (n : Nat) : skip_known skip n = true ↔ skip = true ∧ n ≠ 0 := by
   simp [skip_known]
 
+/-- the repaired `_load_from_cache` takes a record iff it has not expired -/
+theorem load_takes_iff (expired : Bool) : load_takes expired = true ↔ expired = false := by
+  simp [load_takes]
+
 theorem draw_interval : avoidSyncDelayRandomInterval = [20, 120] := rfl
 
 theorem typeA_eq : typeA = 1 := rfl
